@@ -5,7 +5,10 @@ import vf
 
 RUNNER = dict(imports=["From ZV Require Import Lib.Base Model.Codec."], case_type="c26case", mismatch_fn="c26_mismatches")
 
-RULE = ("three codecs through MarshalBinary/UnmarshalBinary: (a) random values (empty/nil, 0-6 or 20-40 entries, ids around the varint and "
+RULE = ("three codecs through MarshalBinary/UnmarshalBinary (every encoder call under recover(): a panic is an oracle failure "
+        "`<codec>:encode:panic` with the value): (a0) DIRECTED values, part of every run: IndexTimeUnix -1, time.Time{}.Unix(), MinInt64, 0, "
+        "2^31-1, 2^31, 2^32, 2^35-1, 2^35, 2^35+1, 2^42, 2^56, MaxInt64; ids 0, 127, 128, 16383, 16384, 2^28, 2^32-1; names of 127/128/16383/16384 "
+        "bytes; 127/128/129 branches; 127/128/16383/16384 entries or keys; bitmap blobs of 126/128/130 bytes; (a) random values (empty/nil, 0-6 or 20-40 entries, ids around the varint and "
         "uint32 boundaries, negative/extreme IndexTimeUnix, 0-3 branches, names incl. empty/unicode/130-byte, bitmaps empty/array/run/bitmap "
         "containers) encoded by the real encoder; (b) version-1 and duplicate-key encodings from an independent reference encoder; "
         "(c) mutated encodings (bit flip, truncate, big-varint splice incl. 2^63-1, 2^64-1, remaining+1, junk tail, overlong varints); "
@@ -20,6 +23,10 @@ TRUSTED = [
     "cost model: steps = primitive reader operations (byt/uvarint), alloc = requested elements (clone, make hints, appends); after the first "
     "failing read the Go code performs at most 4 more O(1) reads in the same iteration before returning, which the model does not count",
     "Go maps modelled as insertion lists observed sorted by key with later-wins (canon_map / canon_set)",
+    "translator/c26consts (go/ast): reads the array length of the scratch buffer `var enc [N]byte` that every binary.PutUvarint call of "
+    "reposMapEncode / stringSetEncode / branchesReposEncode writes into (binary.MaxVarintLenNN resolved from the toolchain's "
+    "encoding/binary/varint.go) into coq/Generated/CodecConsts.v on every run; the encoders' size pre-pass (same numbers through the same "
+    "buffer) and bytes.Buffer are not modelled",
 ]
 
 
@@ -33,10 +40,33 @@ def _harness(ctx, pkg_dir, files, pkg_name, n, out_name):
                          timeout=900 if ctx.tier == "quick" else 3000, out_name=out_name)
 
 
+GEN = os.path.join(vf.COQ, "Generated", "CodecConsts.v")
+
+
+def regen(ctx):
+    """coq/Generated/CodecConsts.v: the capacity of the varint scratch buffer (`var enc [N]byte`) of reposMapEncode,
+    stringSetEncode and branchesReposEncode, read from the source of the tree under test by translator/c26consts (go/ast).
+    Returns (note for the evidence, broken message or None)."""
+    rc, out = vf.sh(["go", "run", os.path.join(vf.ROOT, "translator", "c26consts", "main.go"), vf.REPO],
+                    cwd=vf.REPO, env=vf.go_env(), timeout=600)
+    names = ("reposmap_enc_cap", "stringset_enc_cap", "branchesrepos_enc_cap")
+    if rc != 0 or "(* GENERATED" not in out or not all("Definition %s : nat := " % n in out for n in names):
+        return ("NOT regenerated", "translator/c26consts could not read the scratch buffers of the encoders (shape of the code changed?); "
+                "C26_encode_never_panics then speaks about the last generated capacities only: " + out.strip()[-600:])
+    text = out[out.index("(* GENERATED"):]
+    with vf._Lock("coq"):
+        changed = vf.write_if_changed(GEN, text)
+    caps = {n: int(text.split("Definition %s : nat := " % n)[1].split(".")[0]) for n in names}
+    return "regenerated from %s/marshal.go and query/marshal.go%s: %s" % (vf.REPO, " (content changed)" if changed else "", json.dumps(caps, sort_keys=True)), None
+
+
 def run(ctx):
     pid = ctx.pid
-    proofs = vf.coq_props(ctx, pid)
     broken, failures = [], []
+    gen_note, gen_broken = regen(ctx)
+    if gen_broken:
+        broken.append(gen_broken)
+    proofs = vf.coq_props(ctx, pid)
     aok, aout = vf.audit()
     if not aok:
         proofs["ok"] = False
@@ -89,6 +119,7 @@ def run(ctx):
         oracle_failures=len(failures),
         input_distribution=vf.histogram(cases, "class"),
         trusted_base=TRUSTED,
+        generated_codec_consts=gen_note,
         unconfirmed_hangs=len(unconfirmed),
         unconfirmed_hang_records=unconfirmed[:200],
     )
